@@ -37,10 +37,11 @@ type node struct {
 	mt   int    // mtime token: 0 unset, 1..3 pool values, -1 = some other time ("now")
 	data []byte
 	kids map[string]*node
+	raw  bool // only for nodes handed to PutNode: build the file as a bare raw block
 }
 
 func (n *node) clone() *node {
-	c := &node{dir: n.dir, mode: n.mode, mt: n.mt, data: append([]byte(nil), n.data...)}
+	c := &node{dir: n.dir, mode: n.mode, mt: n.mt, data: append([]byte(nil), n.data...), raw: n.raw}
 	if n.dir {
 		c.kids = map[string]*node{}
 		for k, v := range n.kids {
@@ -486,10 +487,10 @@ func truncTo(data []byte, size int) []byte {
 // ---------------------------------------------------------------------------------------------
 // generator
 
-// Nodes handed to PutNode.  Files are always empty UnixFS file nodes (what `ipfs files write --create`
-// puts): content then comes from writes.  A dag-pb leaf that carries inline data, and a raw leaf once
-// chmod/touch wrapped it into such a leaf, make the DagModifier drop bytes when a later write extends the
-// file (a C10 matter); C19 uses C10's byte-array spec and therefore stays inside its regime.
+// Nodes handed to PutNode: empty UnixFS file nodes (what `ipfs files write --create` puts), a bare raw
+// block (the root of a small file imported with raw leaves / CIDv1, what `ipfs files cp` brings in), small
+// pre-filled dag-pb files (a CIDv0 import of a small file: one leaf with inline data), and directories
+// holding such files.  cacheNode has one branch per kind of node.
 var putPool = []func() *node{
 	func() *node { return &node{} },
 	func() *node { return &node{mode: 0o640} },
@@ -498,6 +499,15 @@ var putPool = []func() *node{
 		return &node{dir: true, mode: 0o750, mt: 2, kids: map[string]*node{
 			"f": {mode: 0o600},
 			"y": {dir: true, kids: map[string]*node{"g": {}}},
+		}}
+	},
+	func() *node { return &node{data: []byte("raw"), raw: true} },
+	func() *node { return &node{data: []byte("hi"), mode: 0o644} },
+	func() *node { return &node{data: []byte("pb")} },
+	func() *node {
+		return &node{dir: true, kids: map[string]*node{
+			"f": {data: []byte("R"), raw: true},
+			"g": {data: []byte("pbg")},
 		}}
 	},
 }
@@ -668,9 +678,9 @@ func gen(r *vh.Rand, tier string, n int, emit func(vh.Case)) {
 					n.mt = tk
 				}
 			case k < 78:
-				op = fmt.Sprintf("write %s %d %s %d", g.path("file"), cr.Intn(4), vh.Hex(cr.Bytes(cr.Intn(5))), cr.Intn(2))
+				op = fmt.Sprintf("write %s %d %s %d", g.path("file"), cr.Intn(4), vh.Hex(cr.Bytes(cr.Intn(5))), cr.Intn(3))
 			case k < 81:
-				op = fmt.Sprintf("trunc %s %d", g.path("file"), cr.Intn(6))
+				op = fmt.Sprintf("trunc %s %d %d", g.path("file"), cr.Intn(6), cr.Intn(3))
 			case k < 84:
 				op = fmt.Sprintf("read %s", g.path("file"))
 			case k < 91:
@@ -743,7 +753,7 @@ func (w *world) buildNode(n *node, raw bool) ipld.Node {
 	}
 	sort.Strings(names)
 	for _, k := range names {
-		c := w.buildNode(n.kids[k], false)
+		c := w.buildNode(n.kids[k], n.kids[k].raw)
 		must(w.ds.Add(w.ctx, c))
 		must(d.AddChild(w.ctx, k, c))
 	}
@@ -837,7 +847,7 @@ func exec(c vh.Case, o *vh.Out) {
 			p := parsePath(f[1])
 			k := vh.Atoi(f[2])
 			pn := putPool[k]()
-			nd := w.buildNode(pn, false)
+			nd := w.buildNode(pn, pn.raw)
 			err := mfs.PutNode(w.root, f[1], nd)
 			res = class(err)
 			wantClass = specPut(spec, p, pn)
@@ -912,8 +922,9 @@ func exec(c vh.Case, o *vh.Out) {
 				if !ok {
 					return "isdir"
 				}
-				sync := f[0] == "trunc" || f[4] == "1"
-				fd, err := fi.Open(ctx, mfs.Flags{Write: true, Sync: sync})
+				// mode 0: no Sync, Close only; 1: Sync descriptor; 2: no Sync, explicit fd.Flush() before Close
+				mode := f[len(f)-1]
+				fd, err := fi.Open(ctx, mfs.Flags{Write: true, Sync: mode == "1"})
 				if err != nil {
 					return class(err)
 				}
@@ -933,8 +944,15 @@ func exec(c vh.Case, o *vh.Out) {
 						return "trunc-" + class(err)
 					}
 				}
+				if mode == "2" {
+					if err := fd.Flush(); err != nil {
+						fd.Close()
+						return "fdflush-" + class(err)
+					}
+				}
 				return class(fd.Close())
 			}()
+			o.Kind(f[0] + "-mode" + f[len(f)-1])
 			if n, cl := spec.walk(p.comps); cl != "ok" {
 				wantClass = cl
 			} else if n.dir {
